@@ -290,6 +290,14 @@ static int _vds_shared_init(vorbis_dsp_state *v,vorbis_info *vi,int encp){
       ci->book_param[i]=NULL;
     }
   }
+  /* the decode books are only partly built; don't leave them behind
+     for a later init to mistake for a finished set */
+  if(ci->fullbooks){
+    for(i=0;i<ci->books;i++)
+      vorbis_book_clear(ci->fullbooks+i);
+    _ogg_free(ci->fullbooks);
+    ci->fullbooks=NULL;
+  }
   vorbis_dsp_clear(v);
   return -1;
 }
